@@ -1178,6 +1178,58 @@ def cond_terms(nz, root, node):
     return out
 
 
+def path_conditions_ex(root, target):
+    """`hir.path_conditions` with, for every condition, the node that owns it and the block that is left when the condition
+    fails: [{"kind", "node", "extra", "owner", "exit"}] (`exit` only for after-exit / let-else conditions)."""
+    chain = H.parents_of(root, target)
+    if chain is None:
+        return []
+    chain = chain + [target]
+    out = []
+    for i, p in enumerate(chain[:-1]):
+        nxt = chain[i + 1]
+        k = p.get("k")
+        if k == "if":
+            c = H.peel(p["cond"], refs=False)
+            if nxt is p["then"] or p.get("else") is nxt:
+                out.append({"kind": "if", "node": p["cond"], "extra": nxt is p["then"], "owner": p, "exit": None})
+        elif k == "match":
+            for ai, a in enumerate(p["arms"]):
+                if a["body"] is nxt or a.get("guard") is nxt:
+                    out.append({"kind": "arm", "node": p, "extra": ai, "owner": p, "exit": None})
+        elif k == "block":
+            for st in p["stmts"]:
+                if st is nxt:
+                    break
+                s0 = H.peel(st, refs=False)
+                if s0.get("k") == "if" and "else" not in s0 and H.diverges(s0["then"]):
+                    out.append({"kind": "if", "node": s0["cond"], "extra": False, "owner": s0, "exit": s0["then"]})
+                elif s0.get("k") == "let" and "els" in s0:
+                    out.append({"kind": "letelse", "node": s0, "extra": True, "owner": s0, "exit": s0["els"]})
+    return out
+
+
+def exclusive_branches(root, a, b):
+    """a and b sit in different branches of the same `if` / different arms of the same `match` (never both evaluated in one pass)."""
+    ca, cb = H.parents_of(root, a), H.parents_of(root, b)
+    if ca is None or cb is None:
+        return False
+    ca, cb = ca + [a], cb + [b]
+    i = 0
+    while i < min(len(ca), len(cb)) and ca[i] is cb[i]:
+        i += 1
+    if i == 0 or i >= len(ca) or i >= len(cb):
+        return False
+    lca, na, nb = ca[i - 1], ca[i], cb[i]
+    if lca.get("k") == "if":
+        br = [lca["then"]] + ([lca["else"]] if "else" in lca else [])
+        return any(na is x for x in br) and any(nb is x for x in br)
+    if lca.get("k") == "match":
+        bodies = [arm["body"] for arm in lca["arms"]]
+        return any(na is x for x in bodies) and any(nb is x for x in bodies)
+    return False
+
+
 def show_conds(cs):
     return ["%s%s %s" % ("" if pol else "!", kind, show(t)) for kind, t, pol in cs]
 
